@@ -70,22 +70,65 @@ def kill_scenarios(ctx: Ctx):
                                "not one persistent process and the interpreter state of its earlier calls vanished silently", "cases": bad})
 
 
+def parked_order_scenarios(ctx: Ctx):
+    # ---- calls parked in the resolver's wait list on the SAME unfinished future become ready in one pass: the single worker
+    # must execute them in the order they were submitted (C11: "a single worker executes calls in the order they were submitted")
+    import os
+    import tempfile
+
+    from .common import InfraError, finish_json_child, start_json_child
+
+    repo = os.environ.get("VERIF_REPO", "/repo")
+    d = tempfile.mkdtemp(prefix="vh_po_")
+    bad = []
+    procs = [(n, start_json_child(["vh.parked_order_runner", str(n), os.path.join(d, "gate%d" % n)])) for n in (2, 4, 7)]
+    for n, h in procs:
+        o = finish_json_child(h, 200)
+        if o is None:
+            raise InfraError("parked-order runner produced no output (n=%d)" % n)
+        if not os.path.realpath(o["pin"]).startswith(os.path.realpath(repo) + os.sep):
+            raise InfraError("parked-order runner imported executorlib from " + o["pin"])
+        ctx.case({"parked_on_one_future": n, "workers": 1})
+        ctx.count("parked_order_scenarios")
+        rs = o["results"]
+        if not all(isinstance(r, list) for r in rs):
+            bad.append({"n": n, "why": "a dependent did not finish", "outcome": o})
+            continue
+        executed = [r[2] for r in sorted(rs, key=lambda r: r[1])]
+        if executed != list(range(n)) or len({r[0] for r in rs}) != 1:
+            bad.append({"n": n, "why": "execution order differs from submission order", "executed_order": executed, "outcome": o})
+    import shutil
+
+    shutil.rmtree(d, ignore_errors=True)
+    ctx.oblige("one worker behind the resolver: calls parked on the same future run in submission order once it finishes", not bad)
+    if bad:
+        ctx.violation({"kind": "parked_calls_out_of_order", "failing_input": True},
+                      {"what": "one block-allocation worker behind the dependency resolver: calls parked on the same unfinished future "
+                               "were executed in an order other than the order of submission", "parked_cases": bad})
+
+
 def body(ctx: Ctx):
     if ctx.replay_file:
         import json as _json
 
-        if "cases" in _json.load(open(ctx.replay_file)):
+        _rp = _json.load(open(ctx.replay_file))
+        if "parked_cases" in _rp:
+            parked_order_scenarios(ctx)
+            return {"rule": "replay of the parked-on-one-future scenarios"}
+        if "cases" in _rp:
             kill_scenarios(ctx)
             return {"rule": "replay of the worker-killed-between-calls scenarios"}
         return sysprop.replay(ctx, "C11", ctx.replay_file)
     n = 90 if ctx.tier == "quick" else 900
     res = sysprop.campaign(ctx, "C11", PROFILE, n, CORPUS, REQUIRED)
     kill_scenarios(ctx)
+    parked_order_scenarios(ctx)
     res["rule"] = ("engine B: batches of 2-8 calls whose bodies read and increment an interpreter-global counter and report (pid, counter); "
                    "block executors with 1-3 workers and per-call executors, resolver on/off; oracles: per-call mode - every pid used once "
                    "and every counter 0; block mode - per pid the counters are 0,1,2,... and [enter, exit] intervals are disjoint; one "
                    "worker - calls without futures execute in submission order; non-trivial = >=2 calls; plus three fault scenarios in which the "
-                   "worker processes are killed between two calls")
+                   "worker processes are killed between two calls, and three scenarios with 2 / 4 / 7 calls parked on one gated future "
+                   "behind one worker (executed in submission order)")
     res["trusted_base_extra"] = sysprop.TRUST
     return res
 
